@@ -25,6 +25,10 @@ CHECKS = {
          "From every PATH(2) initial state in 8 (quick) / 14 (thorough) reference contexts of both families, every sequence of push/pop/clear/symbolic_push/symbolic_append/normalize up to depth 2 (quick) / 3 (thorough) over the core argument alphabet; each transition executed three ways (fresh handle, as the last call of the whole history through ONE handle, stand-alone PathBuf) and judged against the list model from the observed previous state; frame (scheme/authority/query/fragment), validity and handle view checked in every state; violating states are not expanded.",
          "Trusted: the list model of model/pathops.rs with its stated leniencies (shield readings; symbolic '.'/'..' may or may not leave a trailing empty segment; an empty segment pushed symbolically onto a segment-less path may be skipped). Paths longer than 40 bytes are cut and counted.",
          "DESIGN.md section 6, C10"),
+ "C11": ("explicit-state breadth-first search to fixpoint over the real authority editor (transition = one real AuthorityMut call; state = authority text in a fixed context), record model in lock-step, one-handle vs fresh-handle differential",
+         "All states reachable from the product user-info x host-kind x port under set_userinfo/set_host/set_port with absent, empty, shorter, equal-length, longer, IP-literal and multi-byte arguments, in four reference contexts, both families, RiBuf and RiRefBuf: the search runs until no new state appears, so every (state, operation) pair of the closed state space is executed, on a fresh handle and as the last call of a history through ONE handle, and the handle is read (as_authority, Deref, into_authority) after each call. Because the handle's window is determined by (buffer, view) and both are compared with the model after every step, covering all states covers all call sequences.",
+         "Trusted: the record model {userinfo, host, port} + untouched rest (20 lines). The argument alphabet is finite (19-26 values); text outside it is represented by class.",
+         "DESIGN.md section 6, C11"),
  "C12": ("exhaustive input-space sweep (all paths up to a segment bound x all next/next_back interleavings) against a '/'-split list model",
          "Every path text over a structural segment alphabet up to 6 (quick) / 8 (thorough) segments, both families, with every path query and every interleaving of front/back iteration two steps past exhaustion, compared with a list model derived from the text. Exhaustive inside the bound; the scanners branch only on '/', so the bound covers every code path several times over.",
          "Trusted: the '/'-split list model (20 lines), the reference path DFA from /verif/spec deciding domain membership, rustc. Not covered: paths with more segments than the bound (except that iteration code has no length-dependent branch).",
